@@ -249,6 +249,12 @@ func runProtected(p Prop, c any) (res Result) {
 }
 
 // panicSite extracts the first mangle-go frame (function name) below the panic.
+// PanicSite extracts the first library frame below the panic from a stack dump.
+func PanicSite(st string) string { return panicSite(st) }
+
+// TrimStack shortens a stack dump.
+func TrimStack(st string) string { return trimStack(st) }
+
 func panicSite(st string) string {
 	lines := strings.Split(st, "\n")
 	seenPanic := false
